@@ -179,7 +179,26 @@ class Interp:
                     return INT(v.form)
                 return OTHER
             if f.id == "sum" and len(c.args) == 1:
-                v = self.ev(c.args[0])
+                g = c.args[0]
+                if isinstance(g, (ast.GeneratorExp, ast.ListComp)) and len(g.generators) == 1 and not g.generators[0].ifs and isinstance(g.generators[0].target, ast.Name):
+                    # sum(<elt> for x in <list>): interpret <elt> with x bound to an element of the list
+                    it_ = self.ev(g.generators[0].iter)
+                    if it_.kind == "list":
+                        saved = self.env.get(g.generators[0].target.id)
+                        self.env[g.generators[0].target.id] = ONE if it_.why == "all_one" else OTHER
+                        elt = self.ev(g.elt)
+                        if saved is None:
+                            self.env.pop(g.generators[0].target.id, None)
+                        else:
+                            self.env[g.generators[0].target.id] = saved
+                        if elt.kind == "one":
+                            return INT(it_.form)
+                        if elt.kind == "rounded":
+                            return ROUNDED(f"a sum of {form_str(it_.form)} inexact terms ({elt.why})", f"sum({elt.expr} ...)")
+                        if elt.kind == "unknown":
+                            return elt
+                    return OTHER
+                v = self.ev(g)
                 if v.kind == "list" and v.why == "all_one":
                     return INT(v.form)
                 return OTHER
@@ -187,6 +206,10 @@ class Interp:
                 return self.ev(c.args[0])
             if f.id == "GeneratorWithReturn" and len(c.args) == 1:
                 return AV("genret", items=(self.ev(c.args[0]),))
+            # a helper function of the same module (`_average(self.values)`): interpret its body with the arguments bound
+            target = self.eng.ix.resolve_name(self.eng.ix.modules[self.fn.module], f.id)
+            if isinstance(target, FuncInfo) and target.cls is None and target.module.startswith("fandango."):
+                return self.summary(target, c)
             return OTHER
         if isinstance(f, ast.Attribute):
             # self.m(...) / super().m(...)
@@ -198,7 +221,7 @@ class Interp:
                     if f.attr in b.methods:
                         callee = b.methods[f.attr]
                         break
-            if callee is not None and callee.module == EVAL_MOD:
+            if callee is not None and callee.module in (EVAL_MOD, "fandango.constraints.fitness"):
                 return self.summary(callee, c)
             recv = self.ev(f.value)
             if f.attr == "fitness":
@@ -750,8 +773,9 @@ def run(chk: Check, eng: Engine) -> None:
         res = it.returns[0] if it.returns else OTHER
         if res.kind == "one":
             chk.ok("R03-b", m.fq, m.line, "fitness() == ONE when solved == total = k > 0 / values = [1.0]*k")
-        elif res.kind == "unknown":
-            raise AnalysisError(f"{m.fq}: exactness UNKNOWN ({res.why})")
+        elif res.kind in ("unknown", "other"):
+            raise AnalysisError(f"{m.fq}: the exactness interpreter does not understand what fitness() returns ({res.kind}: {res.why or 'construct outside its language'}); "
+                                "it can neither confirm nor refute that a fully satisfied constraint scores exactly 1.0")
         else:
             chk.bad("R03-b", eng.relfile(m), m.line, m.fq, f"fitness() evaluates to {res} for a fully satisfied constraint",
                     "a satisfied constraint contributes less than 1.0, so the evaluator never reaches the threshold",
@@ -811,6 +835,9 @@ MUTANTS = [
       "                self.fandango.average_population_fitness * 1.0001\n                < self.fandango.evaluator.expected_fitness", "R03-c"),
 ]
 TWINS = [
+    M("twin-average-extracted-into-helper", "src/fandango/constraints/fitness.py", "    def fitness(self) -> float:\n        \"\"\"\n        Calculates the fitness of the tree based on the values.\n        This is the same as `ValueFitness`.\n        \"\"\"\n        if self.values:\n            try:\n                return sum(self.values) / len(self.values)\n            except OverflowError:\n                # OverflowError: integer division result too large for a float\n                return sum(self.values) // len(self.values)\n        else:\n            return 0\n",
+      "    def fitness(self) -> float:\n        return _average_of(self.values)\n", None,
+      more=(("class Fitness(abc.ABC):", "def _average_of(values):\n    if not values:\n        return 0\n    try:\n        return sum(values) / len(values)\n    except OverflowError:\n        return sum(values) // len(values)\n\n\nclass Fitness(abc.ABC):"),)),
     M("twin-holding-score-rounds-to-one", _CMP, "            return 1.0, NopSuggestion()\n", "            return 1.0 - 1e-17, NopSuggestion()\n", None),
     M("twin-extract-acceptance-predicate", _EV, "        if fitness >= self._expected_fitness and key not in self._solution_set:\n            self._solution_set.add(key)\n            yield individual\n",
       "        if self._reaches_threshold(fitness) and key not in self._solution_set:\n            self._solution_set.add(key)\n            yield individual\n", None,
